@@ -27,6 +27,7 @@ box_int = z3.Function('box_int', I, Obj)
 box_bool = z3.Function('box_bool', B, Obj)
 unbox_int = z3.Function('unbox_int', Obj, I)
 hashable = z3.Function('hashable', Obj, B)
+id_ = z3.Function('id', Obj, I)                  # id(x): injective only among objects alive at the same time (no axiom relates ids of different objects)
 eqc = z3.Function('eqc', Obj, Obj)              # class of x under ==/hash (dict and set lookups identify equal keys); x is y => same class
 VOCAB = dict(inst=inst, subc=subc, len_=len_, item=item, first=first, mget=mget, mem=mem, vmem=vmem, firstval=firstval,
              firstitem=firstitem, eq=eq, truthy=truthy, typeof=typeof, attr=attr, hasattr_=hasattr_, callres=callres)
